@@ -3,7 +3,7 @@
  *   pn <site> <form> <kind> <width> <min> <max> <base> <trailing> <strhex>
  *        -> OK <hex value> | EINVAL <hex stored> | ERANGE <hex stored>
  *   pf <site> <form> f <width> <minbits> <maxbits> <base> <trailing> <strhex> <oracle...>
- *        -> OK <tok> | EINVAL <tok> | ERANGE <tok>      tok = nan | 16 hex digits (bits of (double)x)
+ *        -> OK <tok> | EINVAL <tok> | ERANGE <tok>      tok = nan | the bits of x (8 hex digits float, 16 double)
  *   hs <hex n>        -> ok <hex of the string>
  *   hp <strhex>       -> 0 <hex size> | -1 <hex size>
  *
